@@ -21,6 +21,12 @@ def handler : Driver.Handler
   | ["np1", "ins", l, p, vs] => match parseList l, p.toInt?, parseList vs with
       | some a, some j, some v => some (res (Model.Np1.insert a j v))
       | _, _, _ => none
+  | ["np1", "get", l, i] => match parseList l, i.toInt? with
+      | some a, some j => some (match Model.Np1.getAt a j with | .ok v => s!"ok {v}" | .error e => "err " ++ e.base.name)
+      | _, _ => none
+  | ["np1", "setat", l, i, x] => match parseList l, i.toInt?, x.toInt? with
+      | some a, some j, some v => some (res (Model.Np1.setAt a j v))
+      | _, _, _ => none
   | _ => none
 end Np1Driver
 
